@@ -2,7 +2,7 @@
 import itertools
 
 from .. import absval as av
-from .. import dyn, gen
+from .. import dyn, gen, msgev
 from ..dyn import F
 from . import c02
 
@@ -161,4 +161,11 @@ def run(ctx):
     # (iii) along histories: several parses into one object (merging partial updates), assignments, copies in between --
     # after every call the re-emission carries every unknown field received so far, byte for byte, in arrival order
     from .. import hist
-    hist.run_histories(ctx, ["TMix", "TOpt", "TOne", "TRep", "TImpl", "Node"], 500 if quick else 15000, 8, "unknown")
+    # directed: an object that holds nothing but fields it does not know, that nobody has looked at, is copied (blind steps)
+    extra = []
+    for ty in ["TMix", "TOpt", "TOne", "TRep", "TImpl", "Node"]:
+        for cp in ("copy", "deepcopy", "pickle"):
+            for unk in ([0], [1, 2], [4, 3, 0]):
+                extra.append((ty, [{"op": "new", "kw": [], "blind": True}, {"op": "parse", "src": gen.fresh(msgev.world()["schema"], ty), "unk": unk, "blind": True},
+                                   {"op": cp, "blind": True}, {"op": "observe"}, {"op": cp}, {"op": "parse", "src": gen.fresh(msgev.world()["schema"], ty), "unk": [2]}]))
+    hist.run_histories(ctx, ["TMix", "TOpt", "TOne", "TRep", "TImpl", "Node"], 500 if quick else 15000, 8, "unknown", extra=extra)
